@@ -117,12 +117,13 @@ def mk_objs(n_roots, n_nodes, rng, md_names=('m1', 'm2', 'm3'), md_mode='rand'):
             else:
                 ks = list(md_mode[i]) if i < len(md_mode) else []
             for k in ks:
-                mds.append({'key': k, 'mdid': mdid, 'name': k, 'tok': tok})
+                # every fifth entry holds no fields at all (content token -1): an entry all the same
+                mds.append({'key': k, 'mdid': mdid, 'name': k, 'tok': tok if mdid % 5 != 3 else -1})
                 mdid += 1; tok += 1
         elif rng.random() < 0.2:
             mds.append({'key': 'nm', 'mdid': mdid, 'name': 'nm', 'tok': tok}); mdid += 1; tok += 1
         objs.append({'id': i, 'root': isroot, 'name': ('r%d' % i) if isroot else NAMES[(i - n_roots) % len(NAMES)] + ('' if i - n_roots < len(NAMES) else str(i)),
-                     'mds': mds})
+                     'mds': mds, 'empty_pl': (not isroot) and (i - n_roots) % 3 == 1})
     return objs
 
 
@@ -351,10 +352,17 @@ def run_scenario(sc):
     import emdfile
     reg, mdreg = {}, {}
     for o in sc['objs']:
-        obj = emdfile.Root(name=o['name']) if o['root'] else emdfile.Node(name=o['name'])
+        if o['root']:
+            obj = emdfile.Root(name=o['name'])
+        elif o.get('empty_pl'):
+            # a node that is empty as a container (a PointList holding no points): a node like any other
+            import numpy as np
+            obj = emdfile.PointList(np.zeros(0, dtype=[('x', float)]), name=o['name'])
+        else:
+            obj = emdfile.Node(name=o['name'])
         for m in o['mds']:
             # every other entry is an instance of a user-defined Metadata subclass
-            md = (MDSub() if m['mdid'] % 2 else emdfile.Metadata)(name=m['name'], data={'tok': m['tok']})
+            md = (MDSub() if m['mdid'] % 2 else emdfile.Metadata)(name=m['name'], data={'tok': m['tok']} if m['tok'] != -1 else None)
             obj._metadata[m['key']] = md
             mdreg[id(md)] = (md, m['mdid'])
         reg[o['id']] = obj
